@@ -70,7 +70,7 @@ def hexs(b):
     return "".join("%02x" % x for x in b)
 
 
-def generate(ctx, iface, methods, valuations, error_status=0, only=None, refdrive=False):
+def generate(ctx, iface, methods, valuations, error_status=0, only=None, refdrive=False, perturb=False, omit_impl=(), optional=()):
     """-> c source. methods: [(name, params)] (the whole interface: the skeleton needs every
     implementation function); only: names of the methods to call (default all)"""
     only = set(only) if only is not None else {m for m, _ in methods}
@@ -98,8 +98,11 @@ static int32_t impl_release(Ctx *me) { (void)me; return Object_OK; }
 static int32_t impl_retain(Ctx *me) { (void)me; return Object_OK; }
 """)
     expected = []
+    protos_done = False
     # ---- implementation functions
     for k, (mname, params) in enumerate(methods):
+        if mname in omit_impl:
+            continue
         sig = ["Ctx *me"]
         body = ['  (void)me; g_entered++; printf("impl %s");' % mname]
         post = []
@@ -150,8 +153,10 @@ static int32_t impl_retain(Ctx *me) { (void)me; return Object_OK; }
                     post.append("  { size_t want = out_want_n(%d, %d, g_val); size_t n = want < %s_len ? want : %s_len;"
                                 " fillp(%s_ptr, n * %d, %d, %d, g_val, 1, %d, %d); *%s_lenout = n; }" % (k, p, pn, pn, pn, es, k, p, es, 1 if K.is_float(t) else 0, pn))
         body.append('  printf("\\n");')
-        A("static size_t out_want_n(int k, int p, int v);\nstatic int out_obj_id(int k, int p, int v, int j);\n" if k == 0 else "")
-        A("static int32_t impl_%s(%s) {\n%s\n  if (g_status) return g_status;\n%s\n  return Object_OK;\n}\n" % (mname, ", ".join(sig), "\n".join(body), "\n".join(post)))
+        A("static size_t out_want_n(int k, int p, int v);\nstatic int out_obj_id(int k, int p, int v, int j);\n" if not protos_done else "")
+        protos_done = True
+        A("%sint32_t impl_%s(%s) {\n%s\n  if (g_status) return g_status;\n%s\n  return Object_OK;\n}\n" % (
+            "" if mname in optional else "static ", mname, ", ".join(sig), "\n".join(body), "\n".join(post)))
     A("static size_t out_want_n(int k, int p, int v) { static const size_t t[4] = {2, 0, 5, 1}; return t[(k + p + 3 * v) % 4]; }\n")
     A("static int out_obj_id(int k, int p, int v, int j) { int r = (k + 2 * p + v + j) % 4; return r == 0 ? -1 : 30 + (k * 5 + p + j) % 20; }\n")
     A("static %s_DEFINE_INVOKE(skel_invoke, impl_, Ctx *)\n" % iface)
@@ -258,8 +263,14 @@ static int32_t transport_invoke(ObjectCxt h, ObjectOp op, ObjectArg *a, ObjectCo
             if mname in only:
                 main.append("  call_%s(target, %d);" % (mname, v))
     rd = ""
+    if perturb:
+        pc, pcalls, _ = perturb_code(ctx, iface, methods, only, len(methods))
+        rd += pc
+        main.append("  g_status = 0;")
+        main += pcalls
     if refdrive:
-        rd, calls, _ = refdrive_code(ctx, iface, methods, valuations, only)
+        rd2, calls, _ = refdrive_code(ctx, iface, methods, valuations, only)
+        rd += rd2
         main.append("  g_status = 0;")
         main += calls
     main.append("  return 0;\n}")
@@ -470,3 +481,98 @@ def expected_transport(ctx, methods, valuations, only):
                 post += " bo%d=%s" % (len(bi) + j, hexs(b))
             out.append((mname, v, pre, post))
     return out
+
+
+# ------------------------------------------------------------------ C04: perturbed envelopes
+
+def fixed_slots(ctx, params):
+    """Spec: slot index and size of every fixed-size buffer of the reference envelope"""
+    K = Kinds(ctx)
+    plan = ref_plan(ctx, params)
+    out, idx = [], 0
+    for d in ("in", "out"):
+        bundle, discrete, _ = plan[d]
+        if bundle:
+            out.append((idx, sum(K.elem_size(prm[1]) for _, prm in bundle)))
+            idx += 1
+        for p, prm in discrete:
+            if prm[2] is None and prm[1] != "buffer":
+                out.append((idx, K.elem_size(prm[1])))
+            idx += 1
+    return out
+
+
+def perturb_code(ctx, iface, methods, only, nmethods_total):
+    """C code driving the skeleton with perturbed envelopes; returns (code, calls, expectations)
+    where expectations = [(tag, must_refuse)] in print order."""
+    code, calls, exps = [], [], []
+    v = 0
+    for k, (mname, params) in enumerate(methods):
+        if mname not in only:
+            continue
+        bi, bocap, bo = ref_buffers(ctx, k, params, v)
+        cnt = ref_counts(ctx, params)
+        plan = ref_plan(ctx, params)
+        fixed = fixed_slots(ctx, params)
+        sizes = [len(b) for b in bi] + list(bocap)
+        nbuf = len(sizes)
+        total = sum(cnt)
+        perts = []          # (desc, op, counts, {slot: size}, must_refuse)
+        for nib in range(4):
+            for delta in (-1, 1):
+                c2 = list(cnt); c2[nib] += delta
+                if 0 <= c2[nib] <= 15:
+                    perts.append(("k%d%+d" % (nib, delta), k, tuple(c2), {}, True))
+            for ext in (0, 15):
+                if cnt[nib] != ext:
+                    c2 = list(cnt); c2[nib] = ext
+                    perts.append(("k%d=%d" % (nib, ext), k, tuple(c2), {}, True))
+        for (slot, sz) in fixed:
+            for ns in (0, sz - 1, sz + 1, 4294967296):
+                if ns != sz and ns >= 0:
+                    perts.append(("s%d=%d" % (slot, ns), k, cnt, {slot: ns}, True))
+        for op in (nmethods_total + 5, 0x3FFF, 0x7FFD):
+            perts.append(("op=%d" % op, op, cnt, {}, True))
+        perts.append(("op|REMOTE_BUFS", k | 0x10000, cnt, {}, False))
+        perts.append(("wellformed", k, cnt, {}, False))
+        fn = "pt_%s" % mname
+        L = ["static void %s(void) {" % fn, "  g_val = 0; g_status = 0;"]
+        for j, b in enumerate(bi):
+            L.append("  static const uint8_t t%d[] = {%s};" % (j, ", ".join(str(x) for x in b) or "0"))
+        L.append("  struct { const char *d; ObjectOp op; unsigned c[4]; long slot; size_t size; int must; } P[] = {")
+        for desc, op, c2, ss, must in perts:
+            slot, size = (list(ss.items())[0] if ss else (-1, 0))
+            L.append('    {"%s", %du, {%d, %d, %d, %d}, %d, %dull, %d},' % (desc, op, c2[0], c2[1], c2[2], c2[3], slot, size, 1 if must else 0))
+        L.append("  };")
+        L.append("  for (size_t q = 0; q < sizeof P / sizeof P[0]; q++) {")
+        L.append("    size_t tot = P[q].c[0] + P[q].c[1] + P[q].c[2] + P[q].c[3];")
+        L.append("    ObjectArg *a = malloc((tot ? tot : 1) * sizeof *a); memset(a, 0, (tot ? tot : 1) * sizeof *a);")
+        L.append("    void *bufs[%d]; size_t nb = 0;" % max(nbuf, 1))
+        # original slots, as far as the perturbed array has room
+        idx = 0
+        for j, b in enumerate(bi):
+            L.append("    if (%d < tot) { void *m = malloc(%d); memcpy(m, t%d, %d); bufs[nb++] = m; a[%d].bi.ptr = m; a[%d].bi.size = %d; }" % (
+                idx, max(len(b), 1), j, len(b), idx, idx, len(b)))
+            idx += 1
+        for j, cap in enumerate(bocap):
+            L.append("    if (%d < tot) { void *m = malloc(%d); memset(m, 0xAA, %d); bufs[nb++] = m; a[%d].b.ptr = m; a[%d].b.size = %d; }" % (
+                idx, max(cap, 1), max(cap, 1), idx, idx, cap))
+            idx += 1
+        for p, prm in plan["in"][2]:
+            n = 1 if prm[2] is None else int(prm[2][1:-1])
+            for jj in range(n):
+                L.append("    if (%d < tot) a[%d].o = mkobj(in_obj_id(%d, %d, 0, %d));" % (idx, idx, k, p, jj))
+                idx += 1
+        L.append("    if (P[q].slot >= 0 && (size_t)P[q].slot < tot) a[P[q].slot].b.size = P[q].size;")
+        L.append("    int before = g_entered;")
+        L.append("    int32_t r = skel_invoke(&g_ctx, P[q].op, a, ObjectCounts_pack(P[q].c[0], P[q].c[1], P[q].c[2], P[q].c[3]));")
+        L.append('    printf("pt %s %%s status=%%d entered=%%d\\n", P[q].d, r, g_entered - before);' % mname)
+        L.append("    for (size_t z = 0; z < nb; z++) free(bufs[z]);")
+        L.append("    free(a);")
+        L.append("  }")
+        L.append("}")
+        code.append("\n".join(L))
+        calls.append("  %s();" % fn)
+        for desc, op, c2, ss, must in perts:
+            exps.append((mname, desc, must))
+    return "\n".join(code) + "\n", calls, exps
